@@ -15,6 +15,7 @@ clone, pg.evolution.mutators.Swap.
 from harness.common.framework import Prop, CaseTimeout
 from harness import c11_geno as G
 from harness import c11 as H
+from translate import t_c12
 
 KEY_TYPES = ['id', 'name_or_id']
 VALUE_TYPES = ['value', 'dna', 'choice', 'literal', 'choice_and_literal']
@@ -187,11 +188,40 @@ def lookups(d, spec):
   return res, ident
 
 
+def lookup_tables(d, spec):
+  """The look-up structures themselves, in the dictionaries' own order (compared with the Lean model)."""
+  from pyglove.core import geno
+
+  def lv(v):
+    if isinstance(v, geno.DNA):
+      return {'one': H.tree_of(v)}
+    if isinstance(v, list):
+      return {'many': [None if x is None else H.tree_of(x) for x in v]}
+    return None
+
+  def item(key):
+    try:
+      return lv(d[key])
+    except CaseTimeout:
+      raise
+    except KeyError:
+      return 'KeyError'
+    except Exception as e:   # pylint: disable=broad-except
+      return 'error:' + type(e).__name__
+
+  return {
+      'by_id': [[str(k), lv(v)] for k, v in d._decision_by_id.items()],   # pylint: disable=protected-access
+      'named': [[k, lv(v)] for k, v in d.named_decisions.items()],
+      'ids': [str(k) for k in d.decision_ids],
+      'items': [[item(dp), item(str(dp.id))] + ([item(dp.name)] if dp.name else [])
+                for dp in spec.decision_points]}
+
+
 class C12(Prop):
   id = 'C12'
   props_modules = ['PgProps.C12']
   driver = 'drv_c12'
-  translators = []
+  translators = [t_c12.run]
   case_timeout_s = 240
   jobs_quick = 8
   rule = ('specs as in C11 (random trees incl. float points, depth<=3, size bound<=300) decorated with '
@@ -208,15 +238,22 @@ class C12(Prop):
   trusted_base = [
       'harness/c11_geno.py reference of members (case generation) and swap_sites (which node Swap picks)',
       'Swap is driven by a scripted random source (shuffle = identity, sample = recorded pair)',
-      'from_dict is modelled (dictionary look-ups by id / name with list popping, candidate_index incl. its two regular '
-      'expressions for ASCII digits) and compared on the 30 option triples; verbose JSON and dna[...] lookups are checked '
-      'by the oracle on the real code only',
-      'modelled, not verified: to_numbers, from_numbers, compact form and its parser, use_spec beliefs, ids, to_dict '
-      '(the 30 to_dict option triples and the node bindings after every producer step are compared verbatim; '
-      'no Lean theorem about to_dict / from_dict)',
+      'to_dict / from_dict are modelled (look-ups by id / name with list popping, candidate_index incl. its two regular '
+      'expressions for ASCII digits), compared on the 30 option triples, and from_dict(to_dict(...)) = d is a Lean theorem '
+      'for every triple under the decidable condition dictCond (evaluated by the driver; where it holds the code must round-trip)',
+      'the verbose JSON form and the look-up structures (_decision_by_id, named_decisions, decision_ids, dna[dp/id/name]) are '
+      'modelled and compared on every DNA (named_decisions only when no two decision points render to the same id: the '
+      'code keys its intermediate dictionary by spec object, the model by id); node identity of look-up results is '
+      'checked on the code only',
+      'cache discipline: T-CACHE (translate/t_c12.py) lists every write to the two caches in pyglove/core/geno; that pg '
+      'symbolic objects call _on_bound after every rebind and build clones through __init__ is trusted (and exercised by '
+      'the look-ups made before and after every producer step)',
+      'modelled, not verified: to_numbers, from_numbers, compact form and its parser, use_spec beliefs, ids '
+      '(compared verbatim on every run)',
       'float literal values, hints, userdata, metadata and format() are outside the model',
   ]
   assumptions = ['decision-point names and location keys are plain identifiers (no dots / brackets)',
+                 'a decision-point name is used by one definition only (enforced by Space._validate_space)',
                  'DNA objects are only built through the DNA constructor']
 
   # -- generation -------------------------------------------------------------------------
@@ -369,6 +406,14 @@ class C12(Prop):
     out['nested'] = nest_j(nested)
     compact = d.to_json(compact=True, type_info=False)
     out['compact'] = nest_j(compact)
+    # the verbose form: value + children of the root, every child as ITS to_json() (compact dicts)
+    vj = d.to_json(compact=False)
+    out['verbose'] = {
+        'value': ({'f': list(vj['value'].as_integer_ratio())} if isinstance(vj['value'], float) else vj['value']),
+        'children': [
+            nest_j(pg_sym.from_json(c['value'])) if isinstance(c, dict) and c.get('format') == 'compact'
+            else {'not-compact': sorted(c) if isinstance(c, dict) else str(type(c))}
+            for c in vj['children']]}
 
     def attempt(fn):
       try:
@@ -381,7 +426,9 @@ class C12(Prop):
     out['from_numbers'] = attempt(lambda: geno.DNA.from_numbers(flat, spec))
     out['parse_nested'] = attempt(lambda: geno.DNA(nested))
     out['parse_compact'] = attempt(lambda: geno.DNA(compact))
+    out['parse_verbose'] = attempt(lambda: pg_sym.from_json(d.to_json(compact=False)))
     out['beliefs'] = beliefs(d)
+    out['lookup_tables'] = lookup_tables(d, spec)
     dicts = []
     for kt, vt, mk in GRID:
       dicts.append(canon_dict(d.to_dict(key_type=kt, value_type=vt, multi_choice_key=mk)))
@@ -450,6 +497,10 @@ class C12(Prop):
     spec_j = case['spec']
     spec = H.build_spec(spec_j)
     out, obs = {'dnas': [], 'chains': []}, {'dnas': [], 'chains': []}
+    # no two decision points render to the same id: then the spec-keyed intermediate dictionary of
+    # named_decisions is the id-keyed one of the model, and the look-up tables are compared
+    all_ids = [str(dp.id) for dp in spec.decision_points]
+    out['ids_unique'] = len(set(all_ids)) == len(all_ids)
     for t in case['dnas']:
       d = H.mk_dna(t)
       d.use_spec(spec)
@@ -516,13 +567,21 @@ class C12(Prop):
       return sorted(d, key=lambda kv: kv[0]) if isinstance(d, list) else d
 
     for i, (da, db) in enumerate(zip(a['dnas'], b['dnas'])):
-      for k in ('norm', 'flat', 'nested', 'compact', 'from_numbers', 'parse_nested', 'parse_compact', 'beliefs'):
+      for k in ('norm', 'flat', 'nested', 'compact', 'verbose', 'from_numbers', 'parse_nested', 'parse_compact',
+                'parse_verbose', 'beliefs'):
         chk('dna%d.%s' % (i, k), da[k], db.get(k))
       if db.get('dicts') is not None:
         for (kt, vt, mk), x, y in zip(GRID, da['dicts'], db['dicts']):
           chk('dna%d.to_dict(%s,%s,%s)' % (i, kt, vt, mk), x, sort_dict(y))
         for (kt, vt, mk), x, y in zip(GRID, da['from_dicts'], db.get('from_dicts') or []):
           chk('dna%d.from_dict(to_dict(%s,%s,%s))' % (i, kt, vt, mk), x, y)
+        if a.get('ids_unique'):
+          for k in ('by_id', 'named', 'ids', 'items'):
+            chk('dna%d.lookup_tables.%s' % (i, k), da['lookup_tables'][k], (db.get('lookup_tables') or {}).get(k))
+        # C12_dict_roundtrip: where the model's decidable condition holds the CODE must round-trip
+        for (kt, vt, mk), x, cond in zip(GRID, da['from_dicts'], db.get('dict_conds') or []):
+          if cond and x != da['norm']:
+            diffs.append('dna%d: dictCond(%s,%s,%s) holds but from_dict(to_dict) = %s' % (i, kt, vt, mk, x))
     for i, (ca, cb) in enumerate(zip(a['chains'], b['chains'])):
       for j, (sa, sb) in enumerate(zip(ca, cb)):
         if sa is None or sb is None:
